@@ -94,9 +94,9 @@ def main():
                                "vals": [[q(vals[:, a_, c], S) for a_ in range(nq)] for c in range(nc)], "tp": q(tp, S)})
     # stress measures, view cell data, boundary force and moment
     XS = 64
-    for kind in ("hex", "quad"):
+    for kind in ("hex", "quad", "hex-ni", "quad-ni"):
         for rep in range(1 if quick else 4):
-            if kind == "hex":
+            if kind.startswith("hex"):
                 mesh = distort(fem.Cube(n=3), rng)
                 f = fem.FieldContainer([fem.Field(fem.RegionHexahedron(mesh), dim=3)])
             else:
@@ -104,28 +104,40 @@ def main():
                 f = fem.FieldContainer([fem.FieldPlaneStrain(fem.RegionQuad(mesh), dim=2)])
             dim = f[0].dim
             f[0].values[:] = rng.randint(-1, 2, size=f[0].values.shape) / 32.0
-            um = fem.NeoHooke(mu=1.0, bulk=2.0)
-            solid = fem.SolidBody(um, f)
-            r = solid.assemble.vector().toarray()
+            # a superposed simple shear + rotation-like part: the deformation gradient is far from symmetric
+            f[0].values[:, 0] += 0.25 * mesh.points[:, 1]
             F = f.extract()[0]
-            P = np.asarray(um.gradient([F, None])[0], float)
+            if kind.endswith("-ni"):
+                solid = fem.SolidBodyNearlyIncompressible(fem.NeoHooke(mu=1.0), f, bulk=20.0)
+                r = solid.assemble.vector().toarray()
+                P = np.asarray(solid.evaluate.stress(f), float)           # the first Piola-Kirchhoff stress the body reports
+            else:
+                um = fem.NeoHooke(mu=1.0, bulk=2.0)
+                solid = fem.SolidBody(um, f)
+                r = solid.assemble.vector().toarray()
+                P = np.asarray(um.gradient([F, None])[0], float)
             J = np.linalg.det(np.moveaxis(F.reshape(3, 3, -1), -1, 0))
             pm = lambda A: q(np.moveaxis(np.asarray(A, float).reshape(3, 3, -1), -1, 0), S)  # noqa: E731
             rid = "stress-%s-%d" % (kind, rep)
             if out.want(rid):
                 out.write({"id": rid, "kind": "stress", "nt": True, "P": pm(P), "F": pm(F), "J": q(J, S),
                            "kirchhoff": pm(solid.evaluate.kirchhoff_stress()), "cauchy": pm(solid.evaluate.cauchy_stress())})
-            rid = "celldata-%s-%d" % (kind, rep)
-            if out.want(rid):
-                view = solid.view()
-                cd = view.mesh.cell_data
-                sig = np.asarray(solid.evaluate.cauchy_stress(), float)          # (3, 3, q, c)
-                vo = np.array([sig[0, 0], sig[1, 1], sig[2, 2], sig[0, 1], sig[1, 2], sig[0, 2]])     # (6, q, c)
-                key = [k for k in cd.keys() if "Cauchy" in k and "Principal" not in k and "Equivalent" not in k]
-                if key:
-                    got = np.asarray(cd[key[0]])
-                    out.write({"id": rid, "kind": "celldata", "nt": True, "name": key[0], "cd": [q(got[c], S) for c in range(got.shape[0])],
+            for st in ("Cauchy", "Kirchhoff", None):
+                rid = "celldata-%s-%s-%d" % (kind, st, rep)
+                if out.want(rid):
+                    view = solid.view(stress_type=st)
+                    cd = view.mesh.cell_data
+                    ev = {"Cauchy": solid.evaluate.cauchy_stress, "Kirchhoff": solid.evaluate.kirchhoff_stress, None: solid.evaluate.stress}[st]
+                    sig = np.asarray(ev(f), float)          # (3, 3, q, c)
+                    vo = np.array([sig[0, 0], sig[1, 1], sig[2, 2], sig[0, 1], sig[1, 2], sig[0, 2]])     # (6, q, c)
+                    name = ("%s Stress" % st) if st else "Stress"
+                    got = np.asarray(cd[name])
+                    if got.shape[1] == 9:               # non-symmetric stress (first Piola-Kirchhoff): full tensor, row-major
+                        vo = sig.reshape(9, sig.shape[2], sig.shape[3])
+                    out.write({"id": rid, "kind": "celldata", "nt": True, "name": name, "cd": [q(got[c], S) for c in range(got.shape[0])],
                                "qv": [[q(vo[:, qq, c], S) for qq in range(vo.shape[1])] for c in range(vo.shape[2])]})
+            if kind.endswith("-ni"):
+                continue
             rid = "forcemoment-%s-%d" % (kind, rep)
             if out.want(rid):
                 b = fem.Boundary(f[0], fx=1)
